@@ -352,6 +352,27 @@ def run(ctx):
         nb += balance(ctx, f, {"thrift_write_struct_begin"}, {"thrift_write_struct_end"}, "R6.balance", "wbalance")
         nb += balance(ctx, f, {"thrift_read_struct_begin"}, {"thrift_read_struct_end"}, "R6.balance", "rbalance")
     ctx.floor("C13 struct begin/end pairs", nb, 40)
+    # field headers are delta-coded against the enclosing struct's frame: every field loop runs inside
+    # a frame pushed by struct_begin in the same function (also when the struct is only skipped)
+    nfr = 0
+    for f in P.funcs_in(PT, TD, TE, "src/metadata/page_index.c", "src/writer/page_writer.c", "src/reader/page_reader.c"):
+        if f.cfg is None:
+            continue
+        for side, begin, users in (("read", "thrift_read_struct_begin", ("thrift_read_field_begin",)),
+                                   ("write", "thrift_write_struct_begin", ("thrift_write_field_header", "thrift_write_field_stop"))):
+            if f.name in (begin,) + users:
+                continue
+            bs = f.calls(begin)
+            for u in users:
+                for c in f.calls(u):
+                    if side == "write" and P.rel(f.file) == TE:
+                        continue        # the encoder's own primitives: the frame is their caller's
+                    nfr += 1
+                    ok = any(f.cfg.node_dominates(b, c) for b in bs)
+                    ctx.ob("R6.balance", "frame|%s:%s|%s" % (P.rel(f.file), f.name, u), P.where(c),
+                           "%s runs inside a field-id frame pushed by %s in %s" % (u, begin, f.name), ok,
+                           "" if ok else "no dominating %s" % begin)
+    ctx.floor("C13 field headers inside frames", nfr, 25)
 
     # ---- C13.3 field-id delta state
     for fname, file_, rec in (("thrift_read_field_begin", TD, "thrift_decoder"),
